@@ -1103,7 +1103,8 @@ func SexpToGoStructs(
 	case *SexpBool:
 		targVa.Elem().Set(reflect.ValueOf(src.Val))
 	default:
-		fmt.Printf("\n error: unknown type: %T in '%#v'\n", src, src)
+		// a value we cannot translate must not be silently dropped
+		return nil, fmt.Errorf("SexpToGoStructs error: cannot convert %T value '%s' to Go type %v", src, src.SexpString(nil), targElemTyp)
 	}
 	return target, nil
 }
